@@ -45,6 +45,9 @@ CHECKS = {
  "C20": ("bounded symbolic execution of match.pointer() -> JSONPatch.test/replace/remove -> apply on documents with look-alike member names, vs editing a deep copy by the match's parts",
          "For every match of a query catalogue on documents whose member names are digits-only, signed look-alikes, '~', '/', empty or non-ASCII (symbolic leaves and array lengths): test with the matched value passes, replace/remove through the match's pointer (object and text form) edit exactly that location and nothing else.",
          "member names concrete (fixed set and a 16-name pool)"),
+ "C12": ("bounded symbolic execution of the Query methods on a symbolic match sequence vs list slicing, counts concretised from a pool through the solver's path search",
+         "Chains of 1-3 operations (limit/head/first, skip/drop, tail/last, take, tee, first_one/one, last_one) ending in each view are decided on $[*] over a symbolic list of length <= 4 with every count from -1 to length+2, including the remainder after take, the copies after tee and ValueError on negative counts.",
+         "counts are concretised before reaching itertools/deque (C): exhaustive over the pool, nothing outside it"),
 }
 NA = {
  "C18": "process-level I/O (argparse FileType, stdin/stdout, exit status, stderr text): CrossHair's audit wall blocks file access, file contents pass through C json, and what remains is a finite option table whose exploration would be enumeration of concrete runs - no role for a solver",
